@@ -95,6 +95,7 @@ func (c *Ctx) wantSliceWF(key, name string) {
 
 // newHeapConst declares a havocked heap.
 func (c *Ctx) newHeapConst(key, prefix, bound string) string {
+	c.ensureSort(key)
 	n := c.declConst(heapKey(key)+prefix, c.heapSortOf(key))
 	c.heapBound[n] = bound
 	return n
@@ -116,6 +117,7 @@ func (fr *frame) markOldSame(key, n string) {
 
 // heap returns the current heap term for an element sort.
 func (c *Ctx) heap(st *State, elemSort string) string {
+	c.ensureSort(elemSort)
 	if h, ok := st.heaps[elemSort]; ok {
 		return h
 	}
